@@ -139,3 +139,144 @@ def _same_scope(r, o, w, fn):
             p = getattr(p, '_parent', None)
         return False
     return inside(o) and inside(w)
+
+
+def _stores(node):
+    return {x.id for x in ast.walk(node) if isinstance(x, ast.Name) and isinstance(x.ctx, ast.Store)}
+
+
+def _ends_abruptly(block):
+    return bool(block) and isinstance(block[-1], (ast.Continue, ast.Break, ast.Return, ast.Raise))
+
+
+def iteration_values_carried(fn):
+    """[(name, loop, read)]: inside a for-loop, a local that is given a value computed from the loop variable (the data of THIS
+    iteration) on some paths only, and is read later in the body on a path where this iteration has not assigned it - so the
+    read sees what an earlier iteration (or the code before the loop) left there. Accumulators (``x = x + ..``, ``x += ..``)
+    and flags set to constants are not iteration data and are left alone."""
+    out = []
+    for loop in [n for n in walk_no_nested(fn) if isinstance(n, ast.For)]:
+        targets = _stores(loop.target)
+        # iteration data: assigned in the body from an expression that mentions the loop variable, directly or through another
+        # such local
+        derived = set(targets)
+        assigns = [a for a in ast.walk(loop) if isinstance(a, ast.Assign) and a is not loop]
+        changed = True
+        tracked = set()
+        while changed:
+            changed = False
+            for a in assigns:
+                names = {x.id for x in ast.walk(a.value) if isinstance(x, ast.Name) and isinstance(x.ctx, ast.Load)}
+                tg = set()
+                for t in a.targets:
+                    if isinstance(t, ast.Name):
+                        tg.add(t.id)
+                    elif isinstance(t, (ast.Tuple, ast.List)) and all(isinstance(e, ast.Name) for e in t.elts):
+                        tg |= {e.id for e in t.elts}
+                if not tg or not (names & derived) or (names & tg):
+                    continue
+                if not tg <= tracked:
+                    tracked |= tg
+                    derived |= tg
+                    changed = True
+        tracked -= targets
+        # names that are accumulated somewhere in the loop are not per-iteration values
+        for a in ast.walk(loop):
+            if isinstance(a, ast.AugAssign) and isinstance(a.target, ast.Name):
+                tracked.discard(a.target.id)
+            if isinstance(a, ast.Assign):
+                names = {x.id for x in ast.walk(a.value) if isinstance(x, ast.Name)}
+                for t in a.targets:
+                    if isinstance(t, ast.Name) and t.id in names:
+                        tracked.discard(t.id)
+        # "best so far": the assignment is guarded by a test that reads the name itself - carried on purpose
+        def _guards(node, acc):
+            for ch in ast.iter_child_nodes(node):
+                if isinstance(ch, (ast.If, ast.While)):
+                    rd = {x.id for x in ast.walk(ch.test) if isinstance(x, ast.Name)}
+                    for a in ast.walk(ch):
+                        if isinstance(a, ast.Assign):
+                            for t in a.targets:
+                                if isinstance(t, ast.Name) and t.id in rd:
+                                    acc.add(t.id)
+                _guards(ch, acc)
+        best = set()
+        _guards(loop, best)
+        tracked -= best
+        if not tracked:
+            continue
+        found = {}
+
+        def reads(expr, assigned):
+            for x in ast.walk(expr):
+                if isinstance(x, ast.Name) and isinstance(x.ctx, ast.Load) and x.id in tracked and x.id not in assigned:
+                    found.setdefault(x.id, x)
+
+        def run_block(block, assigned):
+            assigned = set(assigned)
+            for st in block:
+                assigned = run_stmt(st, assigned)
+            return assigned
+
+        def run_stmt(st, assigned):
+            if isinstance(st, (ast.FunctionDef, ast.AsyncFunctionDef, ast.ClassDef)):
+                return assigned
+            if isinstance(st, ast.Assign):
+                reads(st.value, assigned)
+                return assigned | _stores(st)
+            if isinstance(st, (ast.AnnAssign, ast.AugAssign)):
+                if getattr(st, 'value', None) is not None:
+                    reads(st.value, assigned)
+                return assigned | _stores(st.target)
+            if isinstance(st, ast.If):
+                reads(st.test, assigned)
+                a1 = run_block(st.body, assigned | _stores(st.test))
+                a2 = run_block(st.orelse, assigned | _stores(st.test))
+                if _ends_abruptly(st.body) and _ends_abruptly(st.orelse):
+                    return a1 | a2
+                if _ends_abruptly(st.body):
+                    return a2
+                if _ends_abruptly(st.orelse):
+                    return a1
+                return a1 & a2
+            if isinstance(st, (ast.For, ast.AsyncFor)):
+                reads(st.iter, assigned)
+                run_block(st.body, assigned | _stores(st.target))
+                run_block(st.orelse, assigned)
+                return assigned
+            if isinstance(st, ast.While):
+                reads(st.test, assigned)
+                run_block(st.body, assigned)
+                return assigned
+            if isinstance(st, (ast.With, ast.AsyncWith)):
+                for it in st.items:
+                    reads(it.context_expr, assigned)
+                    if it.optional_vars is not None:
+                        assigned = assigned | _stores(it.optional_vars)
+                return run_block(st.body, assigned)
+            if isinstance(st, ast.Try):
+                a_body = run_block(st.body, assigned)
+                outs = [run_block(st.orelse, a_body)] if not _ends_abruptly(st.body) or st.orelse else []
+                for h in st.handlers:
+                    ah = run_block(h.body, assigned | ({h.name} if h.name else set()))
+                    if not _ends_abruptly(h.body):
+                        outs.append(ah)
+                res = set.intersection(*outs) if outs else a_body
+                return run_block(st.finalbody, res) if st.finalbody else res
+            if hasattr(ast, 'Match') and isinstance(st, ast.Match):
+                reads(st.subject, assigned)
+                outs = []
+                for c in st.cases:
+                    ac = run_block(c.body, assigned | _stores(c.pattern))
+                    if not _ends_abruptly(c.body):
+                        outs.append(ac)
+                outs.append(assigned)
+                return set.intersection(*outs)
+            for ch in ast.iter_child_nodes(st):
+                if isinstance(ch, ast.expr):
+                    reads(ch, assigned)
+            return assigned | _stores(st)
+        run_block(loop.body, set())
+        for name, node in sorted(found.items()):
+            out.append((name, loop, node))
+    return out
